@@ -328,3 +328,12 @@ pub fn inspector_names() -> Vec<String> {
     v.sort();
     v
 }
+
+/// Addresses of the process-wide registries' raw locks, by role (`reg.tag`, `reg.event`, `reg.dep`,
+/// `reg.meta`, `reg.clr`, `reg.chk`, `reg.stats`).
+pub fn registry_lock_addrs() -> Vec<(&'static str, usize)> {
+    let mut v = crate::InvalidationRegistry::global().verif_lock_addrs();
+    #[cfg(feature = "stats")]
+    v.push(("reg.stats", crate::stats_registry::verif_lock_addr()));
+    v
+}
